@@ -15,6 +15,7 @@ import KafkaVerif.Lemmas.WriterLogJournal
 import KafkaVerif.Lemmas.WriterProgress
 import KafkaVerif.Lemmas.WriterQuiesce
 import KafkaVerif.Lemmas.WriterCopies
+import KafkaVerif.Lemmas.WriterMsgCount
 import KafkaVerif.Lemmas.RecordWriter
 import KafkaVerif.Gen.WriterConsts
 
@@ -478,6 +479,37 @@ theorem copies_bounded (cfg : Cfg) (hmax : 1 ≤ cfg.maxAttempts) (s : State) (h
   refine ⟨h1, ?_⟩
   rw [(invJournal cfg s hr).logCount b B hB]
   exact Nat.mul_le_mul_right _ h1
+
+/-- **copies_per_message** — for every message of every batch: the number of entries of the partition log that
+carry it is the number of attempts of its batch the broker applied; that number is at most MaxAttempts, and at least 1
+once the batch is acknowledged. -/
+theorem copies_per_message (cfg : Cfg) (hmax : 1 ≤ cfg.maxAttempts) (s : State) (hr : Reachable cfg s) (b : Nat) (B : Batch)
+    (hB : s.batches b = some B) (m : BMsg) (hm : m ∈ B.msgs) :
+    (s.log B.tp).countP (fun e => e.msg == m.msg) = B.napplied ∧ B.napplied ≤ cfg.maxAttempts ∧
+      (B.acked = true → 1 ≤ B.napplied) := by
+  refine ⟨invMsgCount cfg s hr b B hB m hm, (invCopies cfg hmax s hr).bound b B hB, ?_⟩
+  intro hack
+  have := (invJournal cfg s hr).counts b B hB
+  rw [hack] at this
+  simp only [if_true] at this
+  rw [this]; exact Nat.le_add_left _ _
+
+/-- **ok_means_at_least_once_at_most_maxAttempts** — when a synchronous WriteMessages call returns nil, every message
+of the call stands in the log of the topic-partition the balancer chose for it at least once and at most MaxAttempts
+times (more than once only after lost acknowledgements: `dups_only_after_lost_ack`; nowhere else: `no_foreign_partition`). -/
+theorem ok_means_at_least_once_at_most_maxAttempts (cfg : Cfg) (hmax : 1 ≤ cfg.maxAttempts) (s s' : State)
+    (hr : Reachable cfg s) (c : Nat) (hs : step cfg s (.ret c .ok) = some s') :
+    ∃ C, s.calls c = some C ∧ ∀ i, i < C.msgs.length → ∃ tp, C.assign[i]? = some tp ∧
+      1 ≤ (s.log tp).countP (fun e => e.msg == (c, i)) ∧ (s.log tp).countP (fun e => e.msg == (c, i)) ≤ cfg.maxAttempts := by
+  obtain ⟨C, hC, -, hall⟩ := ack_exact cfg s s' hr c hs
+  refine ⟨C, hC, ?_⟩
+  intro i hi
+  obtain ⟨b, B, -, hB, hack, hasg, ⟨m, hm, hmm⟩, -⟩ := hall i hi
+  obtain ⟨h1, h2, h3⟩ := copies_per_message cfg hmax s hr b B hB m hm
+  rw [hmm] at h1
+  refine ⟨B.tp, hasg, ?_, ?_⟩
+  · rw [h1]; exact h3 hack
+  · rw [h1]; exact h2
 
 /-- **no_copy_before_sending** — a batch that is neither completed nor with the sender goroutine of its partition
 (still attached, or waiting in the queue) has no entry in any log yet: nothing reaches the broker except through the
